@@ -90,6 +90,9 @@ def monStep (mon : Mon) (op : List String) (snap : Snap) : Except String Mon := 
                   else if h == 1 then (if kind == "ok" then 0 else 1) else h
         pure { mon with out := mon.out.filter (·.1 != r), need := mon.need - p, health := setS m h' mon.health }
       | none => pure mon
+    | ["kill", m] =>
+      -- a machine that never received a grant has no name: the harness does nothing then
+      if mon.health.any (·.1 == m) || snap.info.any (·.name == m) then pure { mon with health := setS m 2 mon.health } else pure mon
     | _ => throw "bad-op"
   -- 2. new grants
   let newG := snap.granted.filter fun (r, _) => !(mon.out.any (·.1 == r))
@@ -118,13 +121,15 @@ def monStep (mon : Mon) (op : List String) (snap : Snap) : Except String Mon := 
   match schedule (sortBy reqLess (mon.queue.map (·.2))) (sortBy machLess okm) with
   | some (r, _) => throw s!"a queued request (priority {r.prio}, procs {r.procs}) fits on an available machine but was not granted"
   | none => pure ()
-  let have_ := snap.info.length * mon.machprocs
+  -- stopped machines do not count: they must be replaced
+  let live := (snap.info.filter (·.health != 2)).length
+  let have_ := live * mon.machprocs
   if !mon.queue.isEmpty && have_ < mon.need && have_ < mon.maxp then
     throw s!"requests are waiting and capacity {have_} < need {mon.need}, maxp {mon.maxp}, yet no machine was started"
   -- 5. no more machines than demand and the parallelism limit justify
-  if snap.info.length != 0 && have_ ≥ min mon.maxNeed mon.maxp + mon.machprocs then
-    throw s!"{snap.info.length} machines started for need {mon.maxNeed}, maxp {mon.maxp}, machprocs {mon.machprocs}"
-  if snap.machines < snap.info.length then throw "machine count inconsistent"
+  if live != 0 && have_ ≥ min mon.maxNeed mon.maxp + mon.machprocs then
+    throw s!"{live} machines started for need {mon.maxNeed}, maxp {mon.maxp}, machprocs {mon.machprocs}"
+  if snap.machines < live then throw "machine count inconsistent"
   pure mon
 
 def runLive (c obs : String) : String × String × Bool :=
